@@ -251,9 +251,9 @@ prop("C08",
      assumptions=["commit queue below its byte limit (no waiting)"])
 add("C08", H("db", "c08_a1_checked_changeset_copies_without_error", "quick", ["C08.A1"], "3 operations over 2 keys, kinds from all six, ref_counted", "unwind 34", 900, 6, variant="mapsub",
              unwind=34, stubs=FMT_STUB + MAPSUB, replay="solver-trace-only"))
-add("C08", H("db", "c08_a1_checked_btree_changeset_copies_without_error", "quick", ["C08.A1"], "2 operations over 2 keys, 5 kinds, ref_counted", "unwind 34", 900, 6, variant="mapsub",
+add("C08", H("db", "c08_a1_checked_btree_changeset_copies_without_error", "quick", ["C08.A1"], "1 operation, 5 kinds, ref_counted", "unwind 34", 1200, 8, variant="mapsub",
              unwind=34, stubs=FMT_STUB + MAPSUB, replay="solver-trace-only"))
-for fn, tier in (("c08_a2_commit_raw_hh_set_set_reference", "quick"), ("c08_a2_commit_raw_hb_set_set_reference", "quick"), ("c08_a2_commit_raw_hh_set_reference_set", "thorough"),
+for fn, tier in (("c08_a2_commit_raw_hh_set_set_reference", "quick"), ("c08_a2_commit_raw_hb_set_set_reference", "thorough"), ("c08_a2_commit_raw_hh_set_reference_set", "thorough"),
                  ("c08_a2_commit_raw_hh_set_deref_treeop", "thorough"), ("c08_a2_commit_raw_hb_deref_set_treeop", "thorough"), ("c08_a2_commit_raw_hh_set_set_set", "thorough")):
     add("C08", H("db", fn, tier, ["C08.A2"], "3 operations in 2 columns, kinds concrete per harness; values, ref_counted flags of both columns, background error, old overlay value symbolic",
                  "unwind 3 (bounds the recursive drop glue of NewNode that CBMC explores when the rejected change set is dropped) + unwindset memcmp.0:34 (32-byte key compare)",
@@ -287,9 +287,9 @@ PROPS["C10"]["functions"] += ["LogWriter::{insert_ref_count, insert_index}", "<L
 # ======================================================================================== C04
 prop("C04",
      functions=["btree::node::Node::{position, number_separator, shift_from, remove_from, split, remove_separator, remove_child, from_encoded}",
-                "btree::Entry::{write_separator, read_separator, write_child_index, read_child_index}", "CommitOverlay::{btree_next, btree_prev}"],
+                "btree::Entry::{write_separator, read_separator, write_child_index, read_child_index}"],
      bounds="nodes of up to 8 separators with symbolic 1-2 byte keys (strictly increasing), symbolic operation position; separator codec at key lengths {0,1,254,255,256}; "
-            "decoding of arbitrary entries up to 24 bytes; overlay cursor over <= 3 one-byte keys",
+            "decoding of arbitrary entries up to 24 bytes",
      outside="iter_inner's merge of overlay and tree cursors, re-seek on record change, multi-level change/rebalance/remove_last, depth uniformity of a whole tree, iteration under concurrent commits",
      assumptions=["node pre-states are sorted and packed (a prefix of Some separators)"])
 add("C04", H("btree::node", "c04_b1_position", "quick", ["C04.B1"], "n in 0..=8, keys, probe key (1-2 bytes)", "unwind 12", 1500, 8, unwind=12))
@@ -301,8 +301,11 @@ add("C04", H("btree::node", "c04_twin_must_fail", "quick", [], "keys", "must-fai
 for l, tier in ((0, "thorough"), (1, "quick"), (254, "quick"), (255, "quick"), (256, "thorough")):
     add("C04", H("btree", "c04_b3_separator_codec_%d" % l, tier, ["C04.B3"], "key bytes, value address, child address", "key length %d; unwind 280" % l, 1500, 8, unwind=280, stubs=FMT_STUB))
 add("C04", H("btree", "c04_b3_decode_arbitrary_bytes", "quick", ["C04.B3"], "entry bytes [u8;24], length 0..=24", "unwind 26", 1500, 8, unwind=26, stubs=FMT_STUB))
-add("C04", H("btree", "c04_b3_node_from_encoded", "quick", ["C04.B3"], "n in 0..=8 one-byte keys, addresses, children", "unwind 12", 1500, 8, unwind=12, stubs=FMT_STUB))
-add("C04", H("db", "c04_b4_overlay_cursor", "quick", ["C04.B4"], "<=3 distinct one-byte keys, probe key, LastKey variant", "std BTreeMap; unwind 8", 1800, 10, unwind=8, stubs=ENV))
+for fn, tier in (("c04_b3_node_from_encoded_n0", "thorough"), ("c04_b3_node_from_encoded_n1_inner", "quick"), ("c04_b3_node_from_encoded_n2_leaf", "quick"),
+                 ("c04_b3_node_from_encoded_n3_inner", "thorough"), ("c04_b3_node_from_encoded_n8_inner", "thorough"), ("c04_b3_node_from_encoded_n8_leaf", "thorough")):
+    add("C04", H("btree", fn, tier, ["C04.B3"], "one-byte keys, addresses, children of a node of concrete size", "unwind 12", 2400, 10, unwind=12, stubs=FMT_STUB))
+# c04_b4_overlay_cursor_n* (CommitOverlay::{btree_next, btree_prev} over std's BTreeMap, harness/db.rs) are NOT registered:
+# one insert + two range queries did not finish in 15 minutes (the design expected this: "if not, B4 is dropped").
 
 # ---- C10 (mapsub): tree packing and ref-count steps
 PROPS["C10"]["functions"] += ["HashColumn::{claim_tree_values, prepare_children, prepare_node, claim_children_to_data, claim_node}", "ValueTable::claim_entries",
